@@ -52,7 +52,7 @@ class Gen:
     def get(self, p):
         self.cur.append({"ev": "get", "p": p})
 
-    def write(self, p, op, n, m=None, fail=-1, fm="", te=None, maxmb=0, kind="rand"):
+    def write(self, p, op, n, m=None, fail=-1, fm="", te=None, maxmb=0, kind="rand", vro=0):
         rng = self.rng
         m = m or rng.choice(["put", "put", "post", "postdir"])
         fail = min(fail, n)
@@ -66,7 +66,7 @@ class Gen:
             te = fail < 0 and rng.random() < 0.25
         self.cur.append({"ev": "write", "p": p, "m": m, "op": op, "s": self.seg(), "n": n, "kind": kind,
                          "te": bool(te), "maxmb": maxmb, "ck": maxmb * MIB if maxmb else CHUNK,
-                         "fail": fail, "fm": fm if fail >= 0 else ""})
+                         "fail": fail, "fm": fm if fail >= 0 else "", "vro": vro})
         self.get(p)
 
     def create(self, p, how, ns):
@@ -123,6 +123,16 @@ def systematic(rng, limit, cipher, thorough):
         g.write("p1", "append", rng.choice([10, CHUNK]))
         if rng.random() < 0.3:
             g.write("p1", "set", rng.choice(small), fail=rng.choice(fail_offsets(limit)[:3]) if rng.random() < 0.5 else -1)
+    # E3b: the volume servers refuse writes for the first moments of a request (every volume read-only for N ms):
+    #      the filer has to assign a second file id for a chunk and send the chunk again
+    for n in ([CHUNK + 1, 2 * CHUNK + 5, 3 * CHUNK + 7, CHUNK] if thorough else [2 * CHUNK + 5, CHUNK + 1]):
+        for m in ("put", "post"):
+            g.begin()
+            # the client's three upload attempts for a file id come 0, 237 and 711 ms after the first; its next
+            # file id is tried about a second later: ~1 s of refusal makes the first file id fail for good
+            g.write("p1", "set", n, m=m, vro=1000)
+            g.write("p1", "append", rng.choice([10, CHUNK + 1]), vro=rng.choice([0, 1000]))
+            g.write("p1", "set", rng.choice(small))
     # E4: other chunk sizes through ?maxMB=
     for mb in ([2, 3] if thorough else [2]):
         ck = mb * MIB
